@@ -4,7 +4,8 @@
 HERE=$(cd "$(dirname "$0")/.." && pwd)
 P=${1:-4}
 ls -d $HERE/seeded/*/ | while read d; do
-  grep -q "\"undetected\": true" $d/meta.json && continue
+  grep -q '"undetected": true' $d/meta.json && continue
+  grep -q '"obsolete": true' $d/meta.json && continue
   id=$(basename $d); prop=$(python3 -c "import json;print(json.load(open('$d/meta.json'))['property'])")
   echo "$d/patch.diff $prop"
 done | xargs -P $P -L 1 $HERE/bin/evalmutant.sh > /tmp/evalall.$$ 2>&1
